@@ -202,7 +202,17 @@ fn verify_link_signature_thresholds(
             &layout.keys,
         )?;
 
-        metadata_verified.insert(step.name.clone(), metadata_per_step_verified);
+        // evidence is filed by step name: a second step of the same name
+        // would be judged on (and would replace) the links of the first
+        if metadata_verified
+            .insert(step.name.clone(), metadata_per_step_verified)
+            .is_some()
+        {
+            return Err(Error::VerificationFailure(format!(
+                "the layout has more than one step named '{}'",
+                step.name
+            )));
+        }
     }
 
     Ok(metadata_verified)
